@@ -1,5 +1,6 @@
 use std::fs::{self, OpenOptions};
 use std::io::Write;
+use std::path::Path;
 
 use serde::Deserialize;
 use serde_json::json;
@@ -27,6 +28,12 @@ pub(super) fn run_write(invocation: ToolInvocation, config: &BuiltinToolConfig) 
         Ok(path) => path,
         Err(err) => return ToolOutput::failure(vec![err]),
     };
+
+    // `root.join("")` and `root.join(".")` name the root itself; the temporary file of an
+    // atomic write would then be a sibling of the root.
+    if Path::new(&args.path).file_name().is_none() {
+        return ToolOutput::failure(vec!["path must name a file".to_string()]);
+    }
 
     let create = args.create.unwrap_or(true);
     let append = args.append.unwrap_or(false);
